@@ -86,3 +86,32 @@ PROPS["C02"] = Prop(
     assumptions=["exact regime as C01"],
     nontrivial=G.mech_nontrivial,
 )
+
+_lu_rule = ("all patterns with full diagonal for n<=3 (quick) / n<=4 (thorough) x 4 algorithms, plus random n<=8 with "
+            "fill-in; CSR/CSC x standard/vector L=1..4 chosen per case, blocks 1..2L+1 (partial groups), values uniform in "
+            "Z_p (p=2^31-1) or small; previous L/U contents non-zero garbage (two variants compared by the oracle); "
+            "non-trivial = n>=2")
+
+PROPS["C03"] = Prop(
+    "C03",
+    family_driver={"lu": ("drv_linalg", "plain")},
+    model_families={"lu"},
+    generate=lambda rng, tier: G.gen_lu(rng, tier),
+    rule=_lu_rule,
+    trusted=COMMON_TRUST + ["Zp element type (harness/common/zp.hpp) in place of double: the library's own templates compute in exact arithmetic"],
+    assumptions=["non-zero pivots (cases with a zero pivot are reported as ZERO_PIVOT by both sides and skipped by the oracle)"],
+    nontrivial=lambda l: int(l.split()[5]) >= 2,
+    histogram=G.lu_histogram,
+)
+
+PROPS["C04"] = Prop(
+    "C04",
+    family_driver={"linsolve": ("drv_linalg", "plain")},
+    model_families={"linsolve"},
+    generate=lambda rng, tier: G.gen_linsolve(rng, tier),
+    rule=_lu_rule + "; right-hand sides uniform in Z_p, dense layout matched to the sparse ordering, padding rows hold garbage",
+    trusted=COMMON_TRUST + ["Zp element type in place of double"],
+    assumptions=["non-zero pivots"],
+    nontrivial=lambda l: int(l.split()[5]) >= 2,
+    histogram=G.lu_histogram,
+)
